@@ -1,5 +1,5 @@
 CONSTANTS NV = 3  MaxPower = 3  SlotKinds = {"absent","valid"}  Extras = {"none","dup"}
-  QuorumRule = "exact"  CountDuplicates = TRUE  DropOnMismatch = TRUE  Part = "commit"
+  QuorumRule = "exact"  CountDuplicates = TRUE  DropOnMismatch = TRUE  PowerCap = 1000000  Part = "commit"
 INIT Init
 NEXT Next
 INVARIANTS AcceptOnlyWithQuorum AcceptWellFormedWithQuorum NeverExceedsTotal FirmOnlyIfCommitted DataOnlyIfBound Export
